@@ -1,8 +1,14 @@
 //! Utilities for concurrency.
 
+#[cfg(not(routinator_verif_shuttle))]
 use std::sync::{Mutex as StdMutex, RwLock as StdRwLock};
+#[cfg(routinator_verif_shuttle)]
+use shuttle::sync::{Mutex as StdMutex, RwLock as StdRwLock};
 
+#[cfg(not(routinator_verif_shuttle))]
 pub use std::sync::{MutexGuard, RwLockReadGuard, RwLockWriteGuard};
+#[cfg(routinator_verif_shuttle)]
+pub use shuttle::sync::{MutexGuard, RwLockReadGuard, RwLockWriteGuard};
 
 
 //------------ RwLock --------------------------------------------------------
